@@ -1734,6 +1734,13 @@ impl DnsOutgoing {
         self.id = id;
     }
 
+    /// Sets whether this message is sent via multicast. The `id` is only
+    /// written on the wire for a unicast message, e.g. a legacy unicast
+    /// response (RFC 6762 section 6.7).
+    pub(crate) fn set_multicast(&mut self, multicast: bool) {
+        self.multicast = multicast;
+    }
+
     pub const fn is_query(&self) -> bool {
         (self.flags & FLAGS_QR_MASK) == FLAGS_QR_QUERY
     }
